@@ -130,14 +130,14 @@ def merge(scns, tracefile):
                      "dict_points": [[e["to"], e["ti"]] for e in r["setdict"] if not e.get("wrong_state") and "to" in e and e["ret"] == 0 and e.get("ret2", 0) == 0],
                      "dict_at_start": 1 if r["dictmode"] in (1, 2) else 0,
                      "wrong_state_accepted": [e["seq"] + 1 for e in r["setdict"] if e.get("wrong_state") and (e["ret"] == 0 or e.get("ret2", 1) == 0)],
-                     "expect_ret": r["meta"].get("expect_ret", 0), "complete_supply": r["meta"].get("complete_supply", True)})
+                     "expect_ret": r["meta"].get("expect_ret", 0), "complete_supply": r["meta"].get("complete_supply", True), "salt": r["meta"].get("salt", 0)})
     return recs, summary, by
 
 def group_inflate(recs):
     """group inflate scenario records by (mode, stream, dict) so TLC decodes each stream once"""
     groups = {}
     for r in recs:
-        k = (r["wrap"], bytes(r["inp"]), bytes(r["dict"]))
+        k = (r["wrap"], bytes(r["inp"]), bytes(r["dict"]), r.get("salt", 0))     # salt: spread the runs of one large stream over several TLC shards
         g = groups.setdefault(k, {"scn": r["scn"], "wrap": r["wrap"], "inp": r["inp"], "dict": r["dict"], "runs": [], "calls": []})
         g["runs"].append({"scn": r["scn"], "api": r["api"], "calls": r["calls"], "end": r["end"], "expect_ret": r["expect_ret"], "complete_supply": r["complete_supply"]})
         g["calls"] += [0] * len(r["calls"])
